@@ -110,10 +110,10 @@ def syntax_faults(r, text):
     yield 'trailing garbage', text + '\n@garbage'
     yield 'leading garbage', '@garbage\n' + text
     # unknown setting / index type / operator / action / malformed colour inside the document
-    subs = [(r'\[pk', '[pkk'), (r'(?i)type:\s*(btree|hash|gin|gist|brin|spgist)', 'type: tree'), (r'(?i)\bunique\b(?=[,\]])', 'uniq'),
+    subs = [(r'\[pk', '[pkk'), (r'(?i)type:\s*(btree|hash|gin|gist|brin|spgist)', 'type: tree'), (r'(?i)(?<=[\[,] )unique(?=[,\]])', 'uniq'),
             (r'(?i)delete:\s*(cascade|restrict|set null|set default|no action)', 'delete: explode'),
             (r'(?i)update:\s*(cascade|restrict|set null|set default|no action)', 'update: explode'),
-            (r'#[0-9a-fA-F]{6}\b', '#12345'), (r'#[0-9a-fA-F]{3}\b', '#ggg'), (r'(?i)increment', 'incremental')]
+            (r'#[0-9a-fA-F]{6}\b', '#12345'), (r'#[0-9a-fA-F]{3}\b', '#ggg'), (r'(?i)(?<=[\[,] )increment(?=[,\]])', 'incremental')]
     for pat, rep in subs:
         if re.search(pat, text):
             yield 'invalid word %r' % rep, re.sub(pat, rep, text, count=1)
